@@ -334,7 +334,7 @@ func checkDirtyDecisions(c *Ctx, p *Prog, rule string) {
 		return ok && ref.Owner == "tcell.cell" && ref.Name == name
 	}
 	zeroMarker, lengths := false, false
-	for _, d := range deepInstrs(p, fn, 1, nil) {
+	for _, d := range deepInstrs(p, fn, 2, nil) {
 		bo, ok := d.in.(*ssa.BinOp)
 		if !ok {
 			continue
@@ -349,9 +349,18 @@ func checkDirtyDecisions(c *Ctx, p *Prog, rule string) {
 						if bo.Op == token.NEQ {
 							succ = blk.Succs[1]
 						}
-						for _, r := range returnsOf(fn) {
+						// (in Dirty, or in the helper its answer comes from)
+						for _, r := range returnsOf(bo.Parent()) {
 							if v, isC := constBool(derefCell(resultOf(r, 0))); isC && v && (r.Block() == succ || succ.Dominates(r.Block())) {
 								zeroMarker = true
+							}
+						}
+						// `a == 0 || b` as a branch chain: the equal edge leads straight to the true return
+						if len(succ.Instrs) > 0 {
+							if r, isR := succ.Instrs[len(succ.Instrs)-1].(*ssa.Return); isR {
+								if v, isC := constBool(derefCell(resultOf(r, 0))); isC && v {
+									zeroMarker = true
+								}
 							}
 						}
 					}
@@ -371,7 +380,7 @@ func checkDirtyDecisions(c *Ctx, p *Prog, rule string) {
 		}
 	}
 	// reflect.DeepEqual(lastComb, currComb) compares the lengths itself
-	for _, d := range deepInstrs(p, fn, 1, nil) {
+	for _, d := range deepInstrs(p, fn, 2, nil) {
 		if cc := callCommon(d.in); cc != nil && calleeName(cc) == "reflect.DeepEqual" {
 			lengths = true
 		}
